@@ -164,6 +164,13 @@ func (e *CEnv) resolveType(ct *CType) types.Type {
 	}
 	if i := strings.Index(name, "."); i >= 0 {
 		pn, tn := name[:i], name[i+1:]
+		if ip := e.v.eng.importedPkg(e.pkg, pn); ip != nil {
+			if o := ip.Scope().Lookup(tn); o != nil {
+				if _, ok := o.(*types.TypeName); ok {
+					return o.Type()
+				}
+			}
+		}
 		for _, p := range e.v.eng.pkgs {
 			if p.Types != nil && p.Types.Name() == pn {
 				if o := p.Types.Scope().Lookup(tn); o != nil {
@@ -391,6 +398,7 @@ func (e *CEnv) tr(x *CExpr) CVal {
 		} else {
 			full = And(And(guards...), body)
 		}
+		bvars, full = v.reindexQuant(bvars, full)
 		if x.Kind == "forall" {
 			return CVal{Forall(bvars, full), types.Typ[types.Bool]}
 		}
@@ -646,6 +654,16 @@ func (e *CEnv) trSel(x *CExpr) CVal {
 	// qualified constant: pkg.Name
 	if x.X.Kind == "ident" {
 		if _, isVar := e.lookupIdent(x.X.Name); !isVar {
+			if ip := v.eng.importedPkg(e.pkg, x.X.Name); ip != nil {
+				if o := ip.Scope().Lookup(x.Name); o != nil {
+					switch ob := o.(type) {
+					case *types.Const:
+						return CVal{v.constTerm(ob.Val(), ob.Type()), ob.Type()}
+					case *types.Var:
+						return CVal{v.loadGlobal(e.st, ob), ob.Type()}
+					}
+				}
+			}
 			for _, p := range v.eng.pkgs {
 				if p.Types != nil && p.Types.Name() == x.X.Name {
 					if o := p.Types.Scope().Lookup(x.Name); o != nil {
@@ -1450,69 +1468,91 @@ func (e *CEnv) ghostFieldHeap(gf *SpecFunc, arg *CExpr) (h, key *Term) {
 // then reads `select arr a`, which E-matching can trigger on, instead of the
 // arithmetic term `select arr (+ off i)`.  The transformation is an equivalence.
 func (v *Verifier) reindexQuant(bvars []*Term, full *Term) ([]*Term, *Term) {
-	bound := map[string]bool{}
-	for _, b := range bvars {
-		bound[b.Op] = true
-	}
-	for bi, b := range bvars {
-		if b.Sort != SInt {
-			continue
+	vars, body, _ := v.reindexQuantN(bvars, full, 0)
+	return vars, body
+}
+
+// offsetsOf lists the distinct index offsets (index = offset + b + const) with which
+// the bound constant b is used in array reads of t; ok=false if b is used non-linearly.
+func offsetsOf(t *Term, b string, bound map[string]bool) (offs []*Term, ok bool) {
+	ok = true
+	seenKey := map[string]bool{}
+	seen := map[*Term]bool{}
+	var walk func(t *Term)
+	walk = func(t *Term) {
+		if !ok || seen[t] || t.IsLit {
+			return
 		}
-		var offKey string
-		var off *Term
-		ok := true
-		seen := map[*Term]bool{}
-		var walk func(t *Term)
-		walk = func(t *Term) {
-			if !ok || seen[t] || t.IsLit {
-				return
-			}
-			seen[t] = true
-			if t.Op == "select" && len(t.Args) == 2 && t.Args[1].Sort == SInt {
-				idx := t.Args[1]
-				cs := map[string]string{}
-				idx.Symbols(cs, map[string]bool{})
-				if _, has := cs[b.Op]; has {
-					coef, rest, lin := linearIn(idx, b.Op)
-					if lin && coef.Sign() == 0 {
-						// only nested occurrences: the inner selects are visited below
-						for _, a := range t.Args {
-							walk(a)
-						}
-						return
+		seen[t] = true
+		if t.Op == "select" && len(t.Args) == 2 && t.Args[1].Sort == SInt {
+			idx := t.Args[1]
+			cs := map[string]string{}
+			idx.Symbols(cs, map[string]bool{})
+			if _, has := cs[b]; has {
+				coef, rest, lin := linearIn(idx, b)
+				if lin && coef.Sign() == 0 {
+					for _, a := range t.Args {
+						walk(a)
 					}
-					if !lin || coef.Cmp(big.NewInt(1)) != 0 {
-						ok = false
-						return
-					}
-					// drop the literal constant of rest
-					m := map[string]*linAtom{}
-					c := new(big.Int)
-					linAccum(rest, big.NewInt(1), m, c)
-					r0 := linBuild(m, new(big.Int))
-					rs := map[string]string{}
-					r0.Symbols(rs, map[string]bool{})
-					for s := range rs {
-						if bound[s] {
-							ok = false
-							return
-						}
-					}
-					key := r0.String()
-					if off == nil {
-						off, offKey = r0, key
-					} else if key != offKey {
+					return
+				}
+				if !lin || coef.Cmp(big.NewInt(1)) != 0 {
+					ok = false
+					return
+				}
+				m := map[string]*linAtom{}
+				c := new(big.Int)
+				linAccum(rest, big.NewInt(1), m, c)
+				r0 := linBuild(m, new(big.Int))
+				rs := map[string]string{}
+				r0.Symbols(rs, map[string]bool{})
+				for s := range rs {
+					if bound[s] {
 						ok = false
 						return
 					}
 				}
-			}
-			for _, a := range t.Args {
-				walk(a)
+				if !seenKey[r0.String()] {
+					seenKey[r0.String()] = true
+					offs = append(offs, r0)
+				}
 			}
 		}
-		walk(full)
-		if !ok || off == nil || off.isInt() {
+		for _, a := range t.Args {
+			walk(a)
+		}
+	}
+	walk(t)
+	return
+}
+
+// reindexQuantN re-bases each bound index variable on one of its offsets: the
+// which-th one for the first variable that has several, the first one otherwise.
+// nver is the number of versions (distinct offsets of that variable).
+func (v *Verifier) reindexQuantN(bvars []*Term, full *Term, which int) ([]*Term, *Term, int) {
+	bvars = append([]*Term(nil), bvars...)
+	bound := map[string]bool{}
+	for _, b := range bvars {
+		bound[b.Op] = true
+	}
+	nver := 1
+	multiDone := false
+	for bi, b := range bvars {
+		if b.Sort != SInt {
+			continue
+		}
+		offs, ok := offsetsOf(full, b.Op, bound)
+		if !ok || len(offs) == 0 {
+			continue
+		}
+		pick := 0
+		if len(offs) > 1 && !multiDone {
+			multiDone = true
+			nver = len(offs)
+			pick = which % len(offs)
+		}
+		off := offs[pick]
+		if off.isInt() {
 			continue
 		}
 		a := v.fresh("q_a", SInt)
@@ -1520,22 +1560,7 @@ func (v *Verifier) reindexQuant(bvars []*Term, full *Term) ([]*Term, *Term) {
 		bvars[bi] = a
 		bound[a.Op] = true
 	}
-	return bvars, full
-}
-
-// litTree: an Int term built only from literals and ite.
-func litTree(t *Term) bool {
-	if t.isInt() {
-		return true
-	}
-	return t.Op == "ite" && len(t.Args) == 3 && litTree(t.Args[1]) && litTree(t.Args[2])
-}
-
-func litTreeToBV(t *Term, w int) *Term {
-	if t.isInt() {
-		return BVLitB(t.Int, w)
-	}
-	return Ite(t.Args[0], litTreeToBV(t.Args[1], w), litTreeToBV(t.Args[2], w))
+	return bvars, full, nver
 }
 
 // reindexTerm applies reindexQuant to every quantifier inside t (used for
@@ -1547,13 +1572,19 @@ func (v *Verifier) reindexTerm(t *Term) *Term {
 	}
 	if t.Op == "forall" || t.Op == "exists" {
 		body := v.reindexTerm(t.Args[0])
-		vars, nb := v.reindexQuant(append([]*Term(nil), t.Binders...), body)
-		pats := t.Args[1:]
-		if len(pats) == 0 && t.Op == "forall" && len(vars) == 1 && vars[0] == t.Binders[0] {
-			// not re-based (several offsets): give every indexed read as an alternative trigger
-			pats = selectPatterns(nb, vars[0].Op)
+		vars, nb, nver := v.reindexQuantN(t.Binders, body, 0)
+		first := &Term{Op: t.Op, Sort: t.Sort, Binders: vars, Args: append([]*Term{nb}, t.Args[1:]...)}
+		if t.Op != "forall" || nver <= 1 || nver > 4 || len(t.Args) > 1 {
+			return first
 		}
-		return &Term{Op: t.Op, Sort: t.Sort, Binders: vars, Args: append([]*Term{nb}, pats...)}
+		// an assumed universal whose index variable is used with several offsets is stated
+		// once per offset (equivalent versions, each with a clean trigger on its array)
+		all := []*Term{first}
+		for k := 1; k < nver; k++ {
+			vk, nk, _ := v.reindexQuantN(t.Binders, body, k)
+			all = append(all, &Term{Op: t.Op, Sort: t.Sort, Binders: vk, Args: []*Term{nk}})
+		}
+		return And(all...)
 	}
 	na := make([]*Term, len(t.Args))
 	changed := false
@@ -1604,4 +1635,19 @@ func selectPatterns(body *Term, x string) []*Term {
 	}
 	walk(body)
 	return out
+}
+
+// litTree: an Int term built only from literals and ite.
+func litTree(t *Term) bool {
+	if t.isInt() {
+		return true
+	}
+	return t.Op == "ite" && len(t.Args) == 3 && litTree(t.Args[1]) && litTree(t.Args[2])
+}
+
+func litTreeToBV(t *Term, w int) *Term {
+	if t.isInt() {
+		return BVLitB(t.Int, w)
+	}
+	return Ite(t.Args[0], litTreeToBV(t.Args[1], w), litTreeToBV(t.Args[2], w))
 }
